@@ -19,6 +19,7 @@ import (
 	"path/filepath"
 	"strings"
 	"sync"
+	"sync/atomic"
 	"time"
 
 	"github.com/thomasjungblut/go-sstables/recordio"
@@ -338,6 +339,10 @@ func c18Table(c *c18Case, dir string, ml *mismatchLog) {
 	_, err := writeTable(tdir, o, kvs)
 	must(err)
 	ropts := []sstables.ReadOption{sstables.ReadBasePath(tdir)}
+	if c.Seed%2 == 1 {
+		// per-read checksum verification instead of verification at load time
+		ropts = append(ropts, sstables.SkipHashCheckOnLoad(), sstables.EnableHashCheckOnReads())
+	}
 	if c.Loader != "" {
 		ropts = append(ropts, sstables.ReadIndexLoader(loaderFor(c.Loader, 4096)))
 	}
@@ -436,18 +441,39 @@ func c18Db(c *c18Case, dir string, ml *mismatchLog) {
 	for i := 0; i < 3; i++ {
 		must(db.Put(fmt.Sprintf("shared-%d", i), strings.Repeat("_", 24)))
 	}
+	closer := c.Seed%3 == 0 // in some runs goroutine 0 closes the handle while the others are still calling
+	var closing int32
+	closedOK := func(err error) bool {
+		return atomic.LoadInt32(&closing) == 1 && errors.Is(err, simpledb.ErrAlreadyClosed)
+	}
 	parallel(c.Goroutines, ml, func(id int, r *rand.Rand) {
 		own := map[string]string{}
 		for i := 0; i < c.Calls; i++ {
+			if closer && id == 0 && i == c.Calls/2 {
+				atomic.StoreInt32(&closing, 1)
+				if err := db.Close(); err != nil {
+					ml.add("Close: %v", err)
+				}
+				// afterwards every call on the handle is refused, nothing else
+				if _, err := db.Get("const-00"); !errors.Is(err, simpledb.ErrAlreadyClosed) {
+					ml.add("Get after Close returned: %v", err)
+				}
+				if err := db.Put("late", "x"); !errors.Is(err, simpledb.ErrAlreadyClosed) {
+					ml.add("Put after Close returned: %v", err)
+				}
+				return
+			}
 			if r.Intn(5) == 0 {
 				k := fmt.Sprintf("shared-%d", r.Intn(3))
 				if r.Intn(2) == 0 {
-					if err := db.Put(k, strings.Repeat(string(rune('a'+(id+i)%26)), 24)); err != nil {
+					if err := db.Put(k, strings.Repeat(string(rune('a'+(id+i)%26)), 24)); err != nil && !closedOK(err) {
 						ml.add("Put(%s): %v", k, err)
 					}
 				} else {
 					v, err := db.Get(k)
-					if err != nil || len(v) != 24 || strings.Count(v, v[:1]) != 24 {
+					if closedOK(err) {
+						// refused: fine
+					} else if err != nil || len(v) != 24 || strings.Count(v, v[:1]) != 24 {
 						ml.add("Get(%s) = (%q, %q): not one of the values that were ever put", k, v, errClass(err))
 					}
 				}
@@ -458,21 +484,25 @@ func c18Db(c *c18Case, dir string, ml *mismatchLog) {
 			case x < 3:
 				k := fmt.Sprintf("const-%02d", r.Intn(20))
 				v, err := db.Get(k)
-				if err != nil || v != "constant-value-"+k[6:] {
+				if !closedOK(err) && (err != nil || v != "constant-value-"+k[6:]) {
 					ml.add("Get(%s) = (%q, %q): the key is present and never rewritten", k, v, errClass(err))
 				}
 			case x < 6:
 				k := fmt.Sprintf("g%d-%02d", id, r.Intn(12))
 				v := fmt.Sprintf("v-%d-%d-%s", id, i, strings.Repeat("x", r.Intn(60)))
 				if err := db.Put(k, v); err != nil {
-					ml.add("Put(%s): %v", k, err)
+					if !closedOK(err) {
+						ml.add("Put(%s): %v", k, err)
+					}
 				} else {
 					own[k] = v
 				}
 			case x < 7:
 				k := fmt.Sprintf("g%d-%02d", id, r.Intn(12))
 				if err := db.Delete(k); err != nil {
-					ml.add("Delete(%s): %v", k, err)
+					if !closedOK(err) {
+						ml.add("Delete(%s): %v", k, err)
+					}
 				} else {
 					delete(own, k)
 				}
@@ -480,6 +510,9 @@ func c18Db(c *c18Case, dir string, ml *mismatchLog) {
 				k := fmt.Sprintf("g%d-%02d", id, r.Intn(12))
 				v, err := db.Get(k)
 				want, ok := own[k]
+				if closedOK(err) {
+					break
+				}
 				if ok && (err != nil || v != want) {
 					ml.add("Get(%s) = (%q, %q) but only this goroutine writes the key and it last put %q", k, v, errClass(err), want)
 				}
@@ -490,7 +523,7 @@ func c18Db(c *c18Case, dir string, ml *mismatchLog) {
 			ml.did()
 		}
 	}, c.Seed)
-	if err := db.Close(); err != nil {
+	if err := db.Close(); err != nil && !(closer && errors.Is(err, simpledb.ErrAlreadyClosed)) {
 		ml.add("Close: %v", err)
 	}
 }
